@@ -45,12 +45,12 @@ def run(ctx):
              "non-trivial = tx with code 0 or a block with missed votes/evidence")
     ctx.trust("go/ast fact extractor matches by selector name (no type information)")
     ctx.assume("genesis satisfies supply = Σ balances and balances ≥ 0 (checked on the generated genesis by the init line)")
-    ctx.stream("ops", "c17", DRIVER, n=60000 if ctx.thorough else 4000)
-    ctx.stream("chain", "c17", DRIVER, n=1500 if ctx.thorough else 120, args=["-mode", "chain"])
+    ctx.stream("ops", "c17", DRIVER, n=40000 if ctx.thorough else 3000)
+    ctx.stream("chain", "c17", DRIVER, n=1200 if ctx.thorough else 100, args=["-mode", "chain"])
     if ctx.thorough:
         for s in range(3):
-            ctx.stream(f"ops-s{s}", "c17", DRIVER, n=30000, seed=ctx.seed * 1000 + 171 + s)
-            ctx.stream(f"chain-s{s}", "c17", DRIVER, n=800, args=["-mode", "chain"], seed=ctx.seed * 1000 + 175 + s)
+            ctx.stream(f"ops-s{s}", "c17", DRIVER, n=15000, seed=ctx.seed * 1000 + 171 + s)
+            ctx.stream(f"chain-s{s}", "c17", DRIVER, n=600, args=["-mode", "chain"], seed=ctx.seed * 1000 + 175 + s)
 
 
 def search(ctx):
